@@ -30,6 +30,8 @@ multi = build_step(['gen/alpha/a.txt', 'gen/beta/b.txt', 'gen/gamma/c.txt', 'gen
                    cmd=['touch', 'gen/alpha/a.txt', 'gen/beta/b.txt', 'gen/gamma/c.txt', 'gen/delta/d.txt'])
 pre = [shared_library('prebuilt/%s/lib%s.so' % (d, d)) for d in ('one', 'two', 'three', 'four')]
 e3 = executable('e3', files=['main.c'], libs=pre)
+pk = [pkg_config(n, version='1.0', libs=[l]) for n, l in (('pd', s2), ('pb', s3), ('pc', s), ('pa', a))]
+e4 = executable('e4', files=['main.c'], packages=pk)
 alias('everything', [e1, e2])
 extra_dist(files=['README'])
 """
@@ -62,18 +64,30 @@ class Determinism(Bounded):
         for k in CONTEXTS:
             if k != 'reference':
                 yield {'context': k}
+        # the same saved configuration (package file, individually set absolute directories), regenerated under
+        # another hash seed: the build files are those of the configure run
+        for seed in ('1', '7'):
+            yield {'context': 'reference', 'regenerate_with_seed': seed}
 
-    def configure(self, top, src, backend, ctx):
+    def configure(self, top, src, backend, ctx, packages=False, regenerate_seed=None):
         import shutil, subprocess
         from pyvc.interp import REPO
         seed, cwd, s_arg, b_arg = (x.format(top=top, src=src) for x in CONTEXTS[ctx])
         b = top + '/b'
-        shutil.rmtree(b, ignore_errors=True)
         env = dict(os.environ, PATH=top + '/bin:/venv/bin:' + os.environ['PATH'], PYTHONHASHSEED=seed,
                    PYVC_UNRELATED='value-' + seed)
-        env.pop('MAKEFLAGS', None)
-        r = subprocess.run([top + '/bin/bfg9000', 'configure-into', s_arg, b_arg, '--backend=' + backend,
-                            '--no-resolve-packages'], cwd=cwd, env=env, capture_output=True, text=True, timeout=120)
+        for k in ('MAKEFLAGS', 'MOPACK_NESTED_INVOCATION'):
+            env.pop(k, None)
+        if regenerate_seed is None:
+            shutil.rmtree(b, ignore_errors=True)
+            more = ['-p', src + '/mopack.yml', '--bindir=/opt/demo/bin', '--libdir=/opt/demo/lib',
+                    '--includedir=/opt/demo/inc'] if packages else ['--no-resolve-packages']
+            r = subprocess.run([top + '/bin/bfg9000', 'configure-into', s_arg, b_arg, '--backend=' + backend] + more,
+                               cwd=cwd, env=env, capture_output=True, text=True, timeout=120)
+        else:
+            env['PYTHONHASHSEED'] = regenerate_seed
+            r = subprocess.run([top + '/bin/bfg9000', 'regenerate', b], cwd=cwd, env=env, capture_output=True, text=True,
+                               timeout=120)
         if r.returncode != 0:
             return None, r.stderr[-400:]
         snap = {}
@@ -116,12 +130,25 @@ class Determinism(Bounded):
             with open(top + '/bin/ninja', 'w') as f:
                 f.write('#!/bin/sh\necho 1.10.1\n')
             os.chmod(top + '/bin/ninja', 0o755)
-            ref, err = self.configure(top, src, case, 'reference')
+            regen = raw.get('regenerate_with_seed')
+            if regen:
+                # no usable mopack in the sandbox: a stub that resolves nothing and lists the package file
+                w('mopack.yml', 'packages: {}\n')
+                with open(top + '/bin/mopack', 'w') as f:
+                    f.write("#!/bin/sh\ncase \"$1\" in list-files) echo '[\"%s/mopack.yml\"]';; "
+                            "resolve) mkdir -p \"$3/mopack\"; echo '{}' > \"$3/mopack/mopack.json\";; esac\nexit 0\n" % src)
+                os.chmod(top + '/bin/mopack', 0o755)
+            ref, err = self.configure(top, src, case, 'reference', packages=bool(regen))
             if ref is None:
                 if case == 'ninja' and 'ninja' in (err or ''):
                     return None        # backend not available
                 return self.fail(case, raw, 'configure_succeeds', stderr=err)
-            got, err = self.configure(top, src, case, raw['context'])
+            if regen:
+                got, err = self.configure(top, src, case, 'reference', packages=True, regenerate_seed=regen)
+                got = {k: v for k, v in (got or {}).items() if k in ref or k.endswith(PRIMARY_SUFFIXES)} if got is not None else None
+                ref = {k: v for k, v in ref.items() if k in got} if got is not None else ref
+            else:
+                got, err = self.configure(top, src, case, raw['context'])
             if got is None:
                 return self.fail(case, raw, 'configure_succeeds', stderr=err)
             if sorted(ref) != sorted(got):
